@@ -502,52 +502,80 @@ def check_expr_table(cx, rep):
         rep.ok('EXPR-TABLE', where + '|FLOAT_TYPES = f32, f64')
     else:
         rep.bad('EXPR-TABLE', where, 'FLOAT_TYPES', 'the float natural-type list is %s' % consts.get('FLOAT_TYPES'), f.file, f.line)
-    # returns of the unchanged expression, per literal kind
+    # returns of the unchanged expression, per literal kind — on alpha-normal text (sa/alpha.py): `$0` = the expression, `$1` = the
+    # expected type; pattern binders are named after their variant (`Lit::Int(x)` -> int, `Some(Type::Path(t))` -> path, ...)
+    from ..alpha import Alpha
+    from ..syn import pat_shape
+    al = Alpha(f)
+    TS = 'path.into_token_stream().to_string()'
+    TS2 = 'path.to_token_stream().to_string()'
+
+    def ncond(c):
+        c = c.replace(TS2, TS)
+        while c.startswith('(') and c.endswith(')'):
+            c = c[1:-1]
+        parts = []
+        for d in c.split('||'):
+            d = d.strip('()')
+            if '==' in d:
+                a_, b_ = d.split('==', 1)
+                d = '=='.join(sorted([a_, b_]))
+            parts.append(d)
+        return '||'.join(sorted(parts))
+    EXP = {
+        'Lit::Int': ([('Some(Type::Path(_))', '$1')], ncond('int.suffix()==%s||INT_TYPES.contains(&%s.as_str())' % (TS, TS))),
+        'Lit::Float': ([('Some(Type::Path(_))', '$1')], ncond('float.suffix()==%s||FLOAT_TYPES.contains(&%s.as_str())' % (TS, TS))),
+        'Lit::Str': ([('Some(Type::Reference(_))', '$1')], None),
+        'Lit::Bool': ([('Some(Type::Path(_))', '$1')], ncond('%s=="bool"' % TS)),
+        'Lit::Char': ([('Some(Type::Path(_))', '$1')], ncond('%s=="char"' % TS)),
+        'Lit::Byte': ([('Some(Type::Path(_))', '$1')], ncond('%s=="u8"' % TS)),
+        'Lit::ByteStr': ([('Some(Type::Reference(_))', '$1'), ('Type::Array(_)', 'reference.elem.as_ref()'), ('Type::Path(_)', 'array.elem.as_ref()')], ncond('%s=="u8"' % TS)),
+    }
+    STR_CONDS = [ncond('reference.elem.clone().into_token_stream().to_string()=="str"'), ncond('reference.elem.into_token_stream().to_string()=="str"'),
+                 ncond('reference.elem.to_token_stream().to_string()=="str"')]
     kinds = {}
     for ev in fw.events:
-        if ev.kind == 'exit' and ev.how == 'return' and ev.value is not None and es(ev.value) == 'expr':
-            lit = [pat_s(c['pat']).split('(')[0] for c in ev.ctx if c['k'] == 'arm' and pat_s(c['pat']).startswith('Lit::')]
-            tys = [pat_s(c['pat']) for c in ev.ctx if c['k'] == 'iflet' and c['pol']]
-            conds = [es(c['cond']).replace(' ', '') for c in ev.ctx if c['k'] == 'if' and c['pol']]
+        if ev.kind == 'exit' and ev.how == 'return' and ev.value is not None and al.text(ev.value) == '$0':
+            lit = [pat_shape(c['pat']).split('(')[0] for c in ev.ctx if c['k'] == 'arm' and pat_shape(c['pat']).startswith('Lit::')]
+            tys = [(pat_shape(c['pat']), al.text(c['expr']).lstrip('&')) for c in ev.ctx if c['k'] == 'iflet' and c['pol']]
+            negs = [c for c in ev.ctx if (c['k'] in ('iflet', 'if') and not c['pol'])]
+            conds = [ncond(al.text(c['cond'])) for c in ev.ctx if c['k'] == 'if' and c['pol']]
+            scr = [al.text(c['scrut']).lstrip('&') for c in ev.ctx if c['k'] == 'arm']
             if len(lit) == 1:
-                kinds.setdefault(lit[0], []).append((tys, conds, ev))
-    for k, (tykind, needs) in NATURAL.items():
+                kinds.setdefault(lit[0], []).append((tys, conds, ev, negs, scr))
+    for k, (tywant, cwant) in EXP.items():
         got = kinds.get(k, [])
         inst = 'literal=%s' % k
         if len(got) != 1:
             rep.bad('EXPR-TABLE', where, inst, '%s literals are left unchanged on %d paths (expected exactly one: the natural type)' % (k, len(got)), f.file, f.line)
             continue
-        tys, conds, ev = got[0]
-        txt = ' '.join(tys) + ' ' + ' '.join(conds)
-        ok = tykind in txt
-        if k in ('Lit::Int', 'Lit::Float'):
-            lst = 'INT_TYPES' if k == 'Lit::Int' else 'FLOAT_TYPES'
-            ok = ok and len(conds) == 1 and conds[0].strip('()') in ('lit.suffix()==ty_string)||%s.contains(&ty_string.as_str()' % lst,
-                                                                     'lit.suffix()==ty_string||%s.contains(&ty_string.as_str())' % lst) or \
-                (ok and len(conds) == 1 and 'lit.suffix()==ty_string' in conds[0] and ('%s.contains(&ty_string.as_str())' % lst) in conds[0] and '||' in conds[0] and '&&' not in conds[0])
-        elif k == 'Lit::ByteStr':
-            ok = ok and 'Type::Array' in txt and any(c.strip('()') == 'ty_string=="u8"' for c in conds)
-        else:
-            want = needs[0]
-            ok = ok and len(conds) == 1 and conds[0].strip('()') == 'ty_string==%s' % want
+        tys, conds, ev, negs, scr = got[0]
+        ok = tys == tywant and not negs and scr == ['$0', 'lit.lit'] and len(conds) == 1 and (conds[0] == cwant if cwant is not None else conds[0] in STR_CONDS)
         if ok:
-            rep.ok('EXPR-TABLE', '%s|%s' % (where, inst), {'literal': k, 'unchanged_when': txt[:120]})
+            rep.ok('EXPR-TABLE', '%s|%s' % (where, inst), {'literal': k, 'unchanged_when': '%s %s' % (tys, conds)})
         else:
-            rep.bad('EXPR-TABLE', where, inst, 'the "no conversion" condition for %s literals is `%s`' % (k, txt[:160]), f.file, ev.line)
-    extra = [k for k in kinds if k not in NATURAL]
+            rep.bad('EXPR-TABLE', where, inst, 'the "no conversion" condition for %s literals is `%s %s` (negated: %d, scrutinees %s)' % (k, tys, conds, len(negs), scr), f.file, ev.line)
+    extra = [k for k in kinds if k not in EXP]
     for k in extra:
         rep.bad('EXPR-TABLE', where, 'literal=%s' % k, 'unexpected literal kind left unchanged', f.file, f.line)
     # fall-through: Into::into wrap; non-literals untouched
     tm = cx.gm.terms_of(fw)
+    p0 = [p_[0] for p_ in f.params()][:1]
     tail_ok = False
     other_ok = False
     for ev in fw.events:
         if ev.kind in ('armval', 'tail'):
-            pats = [pat_s(c['pat']) for c in ev.ctx if c['k'] == 'arm']
-            if pats and pats[-1] == '_' and len(pats) == 1 and es(ev.node) == 'expr':
+            pats = [pat_shape(c['pat']) for c in ev.ctx if c['k'] == 'arm']
+            if pats and pats[-1] == '_' and len(pats) == 1 and al.text(ev.node) == '$0':
                 other_ok = True
-            if ev.kind == 'tail' and pats == ['Expr::Lit(lit)'] and es(ev.node).replace(' ', '') == 'syn::parse2(quote!(::core::convert::Into::into(#expr))).unwrap()':
-                tail_ok = True
+            if ev.kind == 'tail' and pats == ['Expr::Lit(_)']:
+                t = tm.term(ev.node, ev.scope)
+                if isinstance(t, tuple) and t[0] == 'unwrap' and isinstance(t[1], tuple) and t[1][0] == 'call' and str(t[1][1]).endswith('parse2') and isinstance(t[1][2], tuple) and t[1][2][0] == 'tmpl':
+                    for t2 in cx.gm.templates:
+                        if id(t2.mac) == t[1][2][1] and len(t2.holes) == 1:
+                            h = list(t2.holes)[0]
+                            if t2.text().replace(' ', '') == '::core::convert::Into::into(#%s)' % h and p0 and t2.hole_term(h) == ('param', p0[0]):
+                                tail_ok = True
     if tail_ok:
         rep.ok('EXPR-TABLE', where + '|other literals wrapped in ::core::convert::Into::into')
     else:
